@@ -228,13 +228,46 @@ def _serial_scenarios(ctx: Ctx, item):
     ctx.klass("serial_boundary_scenarios")
 
 
+def _long_session(ctx: Ctx, item):
+    """A long healthy session: thousands of packets (several sources, a fast-packet message now and then), read in chunks, with an
+    occasionally slow callback. Everything must be delivered once and in order (no queue limit, no drift, no leak of framing state)."""
+    from .. import canboat, gen
+    kind, n_packets = item
+    db = canboat.db()
+    gd = db.by_key["129029/gnssPositionData"]
+    gp, gn, _ = gen.benign_payload(gd)
+    packets = []
+    for i in range(n_packets):
+        if i % 97 == 5 and kind != "actisense":
+            for fr in wire.segment(gp.to_bytes(gn, "little"), (i // 97) % 8):
+                packets.append(packet_of(kind, {"pgn": 129029, "src": 4, "dest": 255, "data": fr}))
+        else:
+            packets.append(packet_of(kind, {"pgn": 127250, "src": 1 + i % 5, "dest": 255, "data": bytes([i % 250, (i * 3) % 200, 0x20, 0, 0, 0, 0, 0xFD])}))
+    stream = b"".join(packets)
+    cuts = list(range(977, len(stream), 977))
+    behaviours = [0.05 if i % 500 == 499 else None for i in range(n_packets + 10)]
+    ctx.count()
+    ctx.nontrivial_extra += 1
+    case = {"client": kind, "long_session": n_packets}
+    outcome, got, exp, s = run_case(kind, packets, cuts, behaviours, 0.001, {})
+    for b, w, c in compare(kind, outcome, got, exp, s, case):
+        ctx.report(b + "|long-session", w, c)
+    ctx.klass("long_session_packets", len(packets))
+
+
 def run(ctx: Ctx):
     pmap(ctx, _serial_scenarios, [(0,)])
+    pmap(ctx, _long_session, [(k, 3000 if ctx.quick else 40000) for k in aio.CLIENT_KINDS])
     n = 60 if ctx.quick else 4000
     pmap(ctx, _work, [(k, n) for k in aio.CLIENT_KINDS for _ in range(4)])
 
 
 def replay(ctx: Ctx, case):
+    if "long_session" in case:
+        sub = Ctx(ctx.pid)
+        sub.known_open = {}
+        _long_session(sub, (case["client"], case["long_session"]))
+        return [(b, v["what"], v["case"]) for b, v in sub.found.items()]
     packets = [bytes.fromhex(p) for p in case["packets"]]
     outcome, got, exp, s = run_case(case["client"], packets, case["cuts"], case["behaviours"], case["yields"], case["settings"])
     return compare(case["client"], outcome, got, exp, s, case)
